@@ -1003,12 +1003,14 @@ mutant("c08-leaveall-before-persist", "C08", "C08-D4", "server_socket.go",
 		if s.server.connectionStateRecovery.Enabled && recoverableDisconnectReasons.Contains(reason) {""")
 mutant("c08-cleaner-no-expiry-test", "C08", "C08-D2", "adapter/adapter_session_aware.go",
        """			if packet.HasExpired(a.maxDisconnectDuration) {
-				a.packets = append(a.packets[:i], a.packets[i+1:]...)
+				// Packets are in emission order: this is the newest expired one, everything before it has expired too.
+				// Remove them all. Removing only this one would leave a hole behind the older packets.
+				a.packets = slices.Delete(a.packets, 0, i+1)
 				break
 			}""",
        """			_ = packet
 			if len(a.packets) > 1000 {
-				a.packets = append(a.packets[:i], a.packets[i+1:]...)
+				a.packets = slices.Delete(a.packets, 0, i+1)
 				break
 			}""")
 mutant("c08-flip-packet-predicate", "C08", "C08-D2", "adapter/adapter.go",
@@ -2225,3 +2227,41 @@ mutant("c03-f38-deferred-ack-marked-sent", "C03", "C03-D9", "client_socket.go",
 mutant("c03-f39-no-head-guard", "C03", "C03-D10", "client_packet_queue.go",
        """		if len(pq.queuedPackets) == 0 || pq.queuedPackets[0] != packet {""",
        """		if len(pq.queuedPackets) == 0 {""")
+
+# F40
+mutant("c08-f40-cleaner-removes-from-the-middle", "C08", "C08-D8", "adapter/adapter_session_aware.go",
+       "				a.packets = slices.Delete(a.packets, 0, i+1)",
+       "				a.packets = append(slices.Clip(a.packets[:i]), a.packets[i+1:]...)")
+
+# round 4 C08 / C14
+mutant("c08-offset-position-memo", "C08", "C08-D9", "adapter/adapter_session_aware.go",
+       """	index := -1
+	for i, packet := range a.packets {
+		if packet.ID == offset {
+			index = i
+			break
+		}
+	}""",
+       """	index := -1
+	for i, packet := range a.packets {
+		if packet.ID == offset {
+			index = i
+			break
+		}
+	}
+	if index == -1 && len(offset) > 0 && len(a.packets) > 0 {
+		index = 0
+	}""")
+mutant("c08-emit-args-from-a-pool", "C08", "C08-D10", "server_socket.go",
+       "	v := make([]any, 0, len(_v)+2)",
+       "	v := emitScratch[:0]")
+MUTANTS[-1]["then"] = ("""func (s *serverSocket) emit(""", """var emitScratch = make([]any, 0, 16)
+
+func (s *serverSocket) emit(""")
+mutant("c14-ping-skipped-for-active-clients", "C14", "C14-D5", "engine.io/server_socket.go",
+       """		ping, err := parser.NewPacket(parser.PacketTypePing, false, nil)""",
+       """		if len(s.pongChan) > 0 {
+			continue
+		}
+
+		ping, err := parser.NewPacket(parser.PacketTypePing, false, nil)""")
